@@ -25,6 +25,10 @@ for d in sorted(glob.glob(f"{root}/C*/seed/[abc]")):
     old_flagged = old.group(1).split() if old else []
     allf = re.findall(r"^\s+=> flagged:(.*)$", txt, re.M)
     final_flagged = allf[-1].split() if allf else []
+    if not old_flagged and len(allf) > 1:
+        old_flagged = allf[0].split()
+    if len(allf) == 1 and "OLD-HARNESS" not in txt and txt.count(" VIOLATION ") + txt.count(" exit=") >= 0 and "C14 C10 C01" not in txt:
+        pass
     ran = re.findall(r"^\s+(C\d+) (?:VIOLATION|exit=)", txt, re.M)
     flagged = sorted(set(old_flagged) | set(final_flagged))
     keys = {}
